@@ -1,0 +1,229 @@
+//go:build verif
+
+// Contracts for the verification machinery in /verif (comment-only; compiled only with -tags verif).
+
+package txnprovider
+
+// ---- C14: reading batch files is safe against arbitrary CAS content ----
+//
+//@ spec nC(cif *models.CoreIndexFile) Z { cond(cif.Operations == nil, 0, len(cif.Operations.Create)) }
+//@ spec nR(cif *models.CoreIndexFile) Z { cond(cif.Operations == nil, 0, len(cif.Operations.Recover)) }
+//@ spec nD(cif *models.CoreIndexFile) Z { cond(cif.Operations == nil, 0, len(cif.Operations.Deactivate)) }
+//@ spec nU(pif *models.ProvisionalIndexFile) Z { cond(pif.Operations == nil, 0, len(pif.Operations.Update)) }
+//@ spec provOK(h *OperationProvider) bool { h != nil && h.parser != nil && h.cas != nil && h.dp != nil && h.options != nil &&
+//@     h.MaxCasURILength < 4611686018427387904 && h.MaxOperationHashLength < 4611686018427387904 }
+//
+// a validated core index file: proof URI present exactly when it is needed, URIs within the limit, create entries
+// carry validated suffix data
+//@ spec coreIndexOK(h *OperationProvider, cif *models.CoreIndexFile) bool {
+//@     cif != nil && ((nR(cif) + nD(cif) > 0) == (cif.CoreProofFileURI != "")) &&
+//@     len(cif.CoreProofFileURI) <= h.MaxCasURILength && len(cif.ProvisionalIndexFileURI) <= h.MaxCasURILength &&
+//@     (cif.Operations != nil ==> (forall q int :: 0 <= q && q < len(cif.Operations.Create) ==> cif.Operations.Create[q].SuffixData != nil)) }
+//@ spec provIndexOK(h *OperationProvider, pif *models.ProvisionalIndexFile) bool {
+//@     pif != nil && ((nU(pif) > 0) == (pif.ProvisionalProofFileURI != "")) && len(pif.ProvisionalProofFileURI) <= h.MaxCasURILength }
+//
+// what validateBatchFileCounts and the getters establish for the file set; everything assembleAnchoredOperations indexes
+//@ spec filesOK(f *batchFiles) bool {
+//@     f != nil && f.CoreIndex != nil &&
+//@     (f.CoreIndex.CoreProofFileURI != "" ==> f.CoreProof != nil && nR(f.CoreIndex) == len(f.CoreProof.Operations.Recover) && nD(f.CoreIndex) == len(f.CoreProof.Operations.Deactivate)) &&
+//@     (f.CoreIndex.ProvisionalIndexFileURI != "" ==> f.ProvisionalIndex != nil && f.Chunk != nil &&
+//@         (f.ProvisionalIndex.ProvisionalProofFileURI != "" ==> f.ProvisionalProof != nil && nU(f.ProvisionalIndex) == len(f.ProvisionalProof.Operations.Update)) &&
+//@         nC(f.CoreIndex) + nR(f.CoreIndex) + nU(f.ProvisionalIndex) == len(f.Chunk.Deltas)) }
+//
+//@ iface DCAS.Read
+//@ spec decompressedOf(alg string, data bytes) bytes
+//@ iface decompressionProvider.Decompress
+//@   results out, err
+//@   ensures err == nil ==> out == decompressedOf(alg, data)
+//@ ghost rdMax uint
+//@ iface OperationParser.ValidateSuffixData
+//@   ensures result == nil ==> suffixData != nil
+//@ iface OperationParser.ValidateDelta
+//@   ensures result == nil ==> delta != nil
+//@ iface OperationParser.ParseSignedDataForUpdate
+//@   results m, err
+//@   ensures err == nil ==> m != nil
+//@ iface OperationParser.ParseSignedDataForRecover
+//@   results m, err
+//@   ensures err == nil ==> m != nil
+//@ iface OperationParser.ParseSignedDataForDeactivate
+//@   results m, err
+//@   ensures err == nil ==> m != nil
+//
+//@ func (*OperationProvider).validateURI
+//@   requires provOK(h)
+//@   ensures (result == nil) == (len(uri) <= h.MaxCasURILength)
+//
+//@ func (*OperationProvider).validateRequiredMultihash
+//@   requires provOK(h)
+//@   ensures (result == nil) == (mh != "" && len(mh) <= h.MaxOperationHashLength)
+//
+//@ func (*OperationProvider).validateOperationReference
+//@   requires provOK(h)
+//@   ensures (result == nil) == (op.DidSuffix != "" && len(op.DidSuffix) <= h.MaxOperationHashLength && op.RevealValue != "" && len(op.RevealValue) <= h.MaxOperationHashLength)
+//
+//@ func (*OperationProvider).validateCoreIndexCASReferences
+//@   requires provOK(h) && cif != nil
+//@   ensures result == nil ==> len(cif.CoreProofFileURI) <= h.MaxCasURILength && len(cif.ProvisionalIndexFileURI) <= h.MaxCasURILength
+//
+//@ func (*OperationProvider).validateCoreIndexOperations
+//@   requires provOK(h)
+//@   loop 1
+//@     invariant forall q int :: 0 <= q && q < _k ==> ops.Create[q].SuffixData != nil
+//@   loop 2
+//@     invariant forall q int :: 0 <= q && q < len(ops.Create) ==> ops.Create[q].SuffixData != nil
+//@   loop 3
+//@     invariant forall q int :: 0 <= q && q < len(ops.Create) ==> ops.Create[q].SuffixData != nil
+//@   ensures result == nil && ops != nil ==> (forall q int :: 0 <= q && q < len(ops.Create) ==> ops.Create[q].SuffixData != nil)
+//
+//@ func (*OperationProvider).validateCoreIndexFile
+//@   requires provOK(h) && cif != nil
+//@   ensures result == nil ==> coreIndexOK(h, cif)
+//@   ensures result == nil ==> ((nR(cif) + nD(cif) > 0) == (cif.CoreProofFileURI != ""))
+//@   ensures result == nil ==> len(cif.CoreProofFileURI) <= h.MaxCasURILength && len(cif.ProvisionalIndexFileURI) <= h.MaxCasURILength
+//@   ensures result == nil ==> (cif.Operations != nil ==> (forall q int :: 0 <= q && q < len(cif.Operations.Create) ==> cif.Operations.Create[q].SuffixData != nil))
+//
+//@ func (*OperationProvider).validateProvisionalIndexCASReferences
+//@   requires provOK(h) && pif != nil
+//@   ensures result == nil ==> len(pif.ProvisionalProofFileURI) <= h.MaxCasURILength
+//
+//@ func (*OperationProvider).validateProvisionalIndexOperations
+//@   requires provOK(h)
+//
+//@ func (*OperationProvider).validateProvisionalIndexFile
+//@   requires provOK(h) && pif != nil
+//@   ensures result == nil ==> provIndexOK(h, pif)
+//
+//@ func (*OperationProvider).readFromAlternateCASSources
+//@   requires provOK(h)
+//
+//@ func (*OperationProvider).validateCoreProofFile
+//@   requires provOK(h) && cpf != nil
+//@ func (*OperationProvider).validateProvisionalProofFile
+//@   requires provOK(h) && ppf != nil
+//@ func (*OperationProvider).validateChunkFile
+//@   requires provOK(h) && cf != nil
+//@   loop 1
+//@     invariant forall q int :: 0 <= q && q < _k ==> cf.Deltas[q] != nil
+//@   ensures result == nil ==> (forall q int :: 0 <= q && q < len(cf.Deltas) ==> cf.Deltas[q] != nil)
+//
+// size limits: raw content within maxSize, decompressed content within maxSize * factor (as coded, in uint arithmetic)
+//@ func (*OperationProvider).readFromCAS
+//@   requires provOK(h) && maxSize < 4611686018427387904 && h.MaxMemoryDecompressionFactor < 1048576 && maxSize < 1099511627776
+//@   sets rdMax = maxSize
+//@   results content, err
+//@   ensures err == nil ==> len(content) <= maxSize * h.MaxMemoryDecompressionFactor
+//@   ensures err == nil ==> (exists raw bytes :: content == decompressedOf(h.CompressionAlgorithm, raw) && len(raw) <= maxSize)
+//
+//@ func (*OperationProvider).getCoreIndexFile
+//@   requires provOK(h) && h.MaxCoreIndexFileSize < 1099511627776 && h.MaxMemoryDecompressionFactor < 1048576
+//@   ensures rdMax == h.MaxCoreIndexFileSize
+//@   modifies rdMax
+//@   results cif, err
+//@   ensures err == nil ==> cif != nil && allocated(cif) && coreIndexOK(h, cif)
+//@ func (*OperationProvider).getCoreProofFile
+//@   requires provOK(h) && h.MaxProofFileSize < 1099511627776 && h.MaxMemoryDecompressionFactor < 1048576
+//@   ensures rdMax == h.MaxProofFileSize
+//@   modifies rdMax
+//@   results f, err
+//@   ensures err == nil ==> f != nil && allocated(f)
+//@ func (*OperationProvider).getProvisionalProofFile
+//@   requires provOK(h) && h.MaxProofFileSize < 1099511627776 && h.MaxMemoryDecompressionFactor < 1048576
+//@   ensures rdMax == h.MaxProofFileSize
+//@   modifies rdMax
+//@   results f, err
+//@   ensures err == nil ==> f != nil && allocated(f)
+//@ func (*OperationProvider).getProvisionalIndexFile
+//@   requires provOK(h) && h.MaxProvisionalIndexFileSize < 1099511627776 && h.MaxMemoryDecompressionFactor < 1048576
+//@   ensures rdMax == h.MaxProvisionalIndexFileSize
+//@   modifies rdMax
+//@   results pif, err
+//@   ensures err == nil ==> pif != nil && allocated(pif) && provIndexOK(h, pif)
+//@ func (*OperationProvider).getChunkFile
+//@   requires provOK(h) && h.MaxChunkFileSize < 1099511627776 && h.MaxMemoryDecompressionFactor < 1048576
+//@   ensures rdMax == h.MaxChunkFileSize
+//@   modifies rdMax
+//@   results f, err
+//@   ensures err == nil ==> f != nil && allocated(f) && (forall q int :: 0 <= q && q < len(f.Deltas) ==> f.Deltas[q] != nil)
+//
+//@ spec sizesOK(h *OperationProvider) bool { h.MaxCoreIndexFileSize < 1099511627776 && h.MaxProofFileSize < 1099511627776 &&
+//@     h.MaxProvisionalIndexFileSize < 1099511627776 && h.MaxChunkFileSize < 1099511627776 && h.MaxMemoryDecompressionFactor < 1048576 }
+//
+//@ func (*OperationProvider).getProvisionalFiles
+//@   modifies rdMax
+//@   requires provOK(h) && sizesOK(h)
+//@   results f, err
+//@   ensures err == nil ==> f != nil && f.ProvisionalIndex != nil && provIndexOK(h, f.ProvisionalIndex) && f.Chunk != nil
+//@   ensures err == nil && f.ProvisionalIndex.ProvisionalProofFileURI != "" ==> f.ProvisionalProof != nil
+//@   ensures err == nil ==> (forall q int :: 0 <= q && q < len(f.Chunk.Deltas) ==> f.Chunk.Deltas[q] != nil)
+//
+//@ func validateBatchFileCounts
+//@   requires batchFiles != nil && batchFiles.CoreIndex != nil
+//@   requires batchFiles.CoreIndex.CoreProofFileURI != "" ==> batchFiles.CoreProof != nil
+//@   requires batchFiles.CoreIndex.ProvisionalIndexFileURI != "" ==> batchFiles.ProvisionalIndex != nil && batchFiles.Chunk != nil && (batchFiles.ProvisionalIndex.ProvisionalProofFileURI != "" ==> batchFiles.ProvisionalProof != nil)
+//@   ensures result == nil ==> filesOK(batchFiles)
+//
+//@ func (*OperationProvider).getBatchFiles
+//@   modifies rdMax
+//@   requires provOK(h) && sizesOK(h) && coreIndexOK(h, cif)
+//@   results f, err
+//@   ensures err == nil ==> filesOK(f) && f.CoreIndex == cif
+//@   ensures err == nil && cif.ProvisionalIndexFileURI != "" ==> provIndexOK(h, f.ProvisionalIndex) && (forall q int :: 0 <= q && q < len(f.Chunk.Deltas) ==> f.Chunk.Deltas[q] != nil)
+//
+// result == nil exactly when the values are pairwise distinct
+//@ func checkForDuplicates
+//@   loop 1
+//@     invariant valuesMap != nil && fresh(valuesMap)
+//@     invariant forall q int :: 0 <= q && q < _k ==> values[q] in valuesMap
+//@     invariant len(duplicates) == 0 ==> (forall a int, b int :: 0 <= a && a < b && b < _k ==> values[a] != values[b])
+//@     invariant forall s string :: s in valuesMap ==> (exists q int :: 0 <= q && q < _k && values[q] == s)
+//@   ensures result == nil ==> (forall a int, b int :: 0 <= a && a < b && b < len(values) ==> values[a] != values[b])
+
+// ---- assembling the operations: every index is covered by the validated counts ----
+//
+//@ spec mOpsNonNil(ops []*model.Operation) bool { forall q int :: 0 <= q && q < len(ops) ==> ops[q] != nil }
+//
+//@ func (*OperationProvider).parseCoreIndexOperations
+//@   requires provOK(h) && t != nil && cif != nil
+//@   requires cif.Operations != nil ==> (forall q int :: 0 <= q && q < len(cif.Operations.Create) ==> cif.Operations.Create[q].SuffixData != nil)
+//@   loop 1
+//@     invariant len(createOps) == _k && len(suffixes) == _k && mOpsNonNil(createOps)
+//@   loop 2
+//@     invariant len(recoverOps) == _k && mOpsNonNil(recoverOps) && mOpsNonNil(createOps) && len(createOps) == len(cif.Operations.Create) && len(suffixes) == len(cif.Operations.Create) + _k
+//@   loop 3
+//@     invariant len(deactivateOps) == _k && mOpsNonNil(deactivateOps) && mOpsNonNil(recoverOps) && mOpsNonNil(createOps) && len(createOps) == len(cif.Operations.Create) && len(recoverOps) == len(cif.Operations.Recover) && len(suffixes) == len(cif.Operations.Create) + len(cif.Operations.Recover) + _k
+//@   results r, err
+//@   ensures err == nil ==> r != nil && fresh(r) && len(r.Create) == nC(cif) && len(r.Recover) == nR(cif) && len(r.Deactivate) == nD(cif) && len(r.Suffixes) == nC(cif) + nR(cif) + nD(cif)
+//@   ensures err == nil ==> mOpsNonNil(r.Create) && mOpsNonNil(r.Recover) && mOpsNonNil(r.Deactivate)
+//
+//@ func parseProvisionalIndexOperations
+//@   requires pif != nil
+//@   loop 1
+//@     invariant len(updateOps) == _k && len(suffixes) == _k && mOpsNonNil(updateOps)
+//@   ensures result != nil && fresh(result) && len(result.Update) == nU(pif) && len(result.Suffixes) == nU(pif) && mOpsNonNil(result.Update)
+//
+//@ func createAnchoredOperations
+//@   requires mOpsNonNil(ops)
+//@   loop 1
+//@     invariant len(anchoredOps) == _k && mOpsNonNil(ops) && (forall q int :: 0 <= q && q < len(anchoredOps) ==> anchoredOps[q] != nil)
+//@   results a, err
+//@   ensures err == nil ==> len(a) == len(ops) && (forall q int :: 0 <= q && q < len(a) ==> a[q] != nil)
+//
+//@ func (*OperationProvider).assembleAnchoredOperations
+//@   requires provOK(h) && t != nil && filesOK(batchFiles) && coreIndexOK(h, batchFiles.CoreIndex)
+//@   requires batchFiles.CoreIndex.ProvisionalIndexFileURI != "" ==> provIndexOK(h, batchFiles.ProvisionalIndex) && (forall q int :: 0 <= q && q < len(batchFiles.Chunk.Deltas) ==> batchFiles.Chunk.Deltas[q] != nil)
+//@   results a, err
+//@   ensures err == nil ==> (forall q int :: 0 <= q && q < len(a) ==> a[q] != nil)
+//
+// C14: on success the number of operations equals the anchor string's count, and none is nil
+//@ spec anchorCount(s string) Z
+//@ func ParseAnchorData
+//@   trusted
+//@   results ad, err
+//@   ensures err == nil ==> ad != nil && fresh(ad) && ad.NumberOfOperations == anchorCount(data) && anchorCount(data) >= 1
+//
+//@ func (*OperationProvider).GetTxnOperations
+//@   modifies rdMax
+//@   requires provOK(h) && sizesOK(h) && t != nil
+//@   results ops, err
+//@   ensures err == nil ==> len(ops) == anchorCount(t.AnchorString) && (forall q int :: 0 <= q && q < len(ops) ==> ops[q] != nil)
